@@ -318,8 +318,11 @@ func (c *skelChecker) entryPoints(ru *report.Rule) {
 					if ret, isRet := in.(*ssa.Return); isRet && len(ret.Results) == 1 {
 						if last, isCall := ret.Results[0].(*ssa.Call); isCall && len(calls) == 2 && last == calls[1] {
 							c0, c1 := calls[0].Call.StaticCallee(), calls[1].Call.StaticCallee()
+							// IsIdentity is applied to the result of MulByCofactor: the
+							// value it returns (its receiver) or that receiver itself
 							ok = c0 != nil && c1 != nil && c0.Object() == types.Object(mbc) && c1.Object() == types.Object(isId) &&
-								calls[1].Call.Args[0] == ssa.Value(calls[0]) && calls[0].Call.Args[1] == ssa.Value(sf.Params[0])
+								(calls[1].Call.Args[0] == ssa.Value(calls[0]) || calls[1].Call.Args[0] == calls[0].Call.Args[0]) &&
+								calls[0].Call.Args[1] == ssa.Value(sf.Params[0]) && calls[0].Call.Args[0] != ssa.Value(sf.Params[0])
 						}
 					}
 				}
@@ -494,24 +497,38 @@ func lengthDiscipline(fn *ssa.Function, pairs [][2]int) string {
 			if !ok {
 				continue
 			}
-			bin, ok := ifi.Cond.(*ssa.BinOp)
-			if !ok || bin.Op != token.NEQ {
+			// len(a) != len(b) with the panic on the true edge, or (the same test
+			// spelled `!(len(a) == len(b))`) == with the panic on the false edge
+			cond := ifi.Cond
+			mism, match := 0, 1
+			for {
+				u, isNot := cond.(*ssa.UnOp)
+				if !isNot || u.Op != token.NOT {
+					break
+				}
+				cond, mism, match = u.X, match, mism
+			}
+			bin, ok := cond.(*ssa.BinOp)
+			if !ok || (bin.Op != token.NEQ && bin.Op != token.EQL) {
 				continue
+			}
+			if bin.Op == token.EQL {
+				mism, match = match, mism
 			}
 			i, ok1 := lenOf(fn, bin.X)
 			j, ok2 := lenOf(fn, bin.Y)
 			if !ok1 || !ok2 || !((i == pr[0] && j == pr[1]) || (i == pr[1] && j == pr[0])) {
 				continue
 			}
-			t := b.Succs[0]
+			t := b.Succs[mism]
 			if _, isPanic := t.Instrs[len(t.Instrs)-1].(*ssa.Panic); !isPanic || len(t.Preds) != 1 {
 				continue
 			}
-			if len(b.Succs[1].Preds) != 1 {
+			if len(b.Succs[match].Preds) != 1 {
 				continue
 			}
 			found = true
-			guards = append(guards, b.Succs[1])
+			guards = append(guards, b.Succs[match])
 		}
 		if !found {
 			return sprintf("no test len(%s) != len(%s) that panics on mismatch", fn.Params[pr[0]].Name(), fn.Params[pr[1]].Name())
@@ -535,7 +552,7 @@ func lengthDiscipline(fn *ssa.Function, pairs [][2]int) string {
 		if ifi, ok := b.Instrs[len(b.Instrs)-1].(*ssa.If); ok {
 			isGuard := false
 			for _, g := range guards {
-				if b.Succs[1] == g {
+				if b.Succs[1] == g || b.Succs[0] == g {
 					isGuard = true
 				}
 			}
